@@ -440,4 +440,322 @@ theorem ripStep_spec (comb : Option ℓ → Option ℓ → Option ℓ → Option
         · rw [if_neg (by simp [hpq, hrq]), Option.isSome_map, hS.entries, memS', memS']
           tauto
 
+/-! ### `_find_min_connected_node` returns an inner state, whatever the set order -/
+
+theorem akeys_ainsert_of_mem {k : κ} {v : β} {d : List (κ × β)} (h : k ∈ akeys d) :
+    ∀ x, x ∈ akeys (ainsert k v d) ↔ x ∈ akeys d := by
+  intro x
+  rw [← alookup_isSome_iff, ← alookup_isSome_iff, alookup_ainsert]
+  by_cases hx : x = k
+  · subst hx; simp [alookup_isSome_iff.mpr h]
+  · simp [hx]
+
+theorem degInc_spec {deg : List (σ × Nat)} {x : σ} (h : x ∈ akeys deg) :
+    ∃ deg', degInc deg x = .ok deg' ∧ ∀ y, y ∈ akeys deg' ↔ y ∈ akeys deg := by
+  unfold degInc
+  obtain ⟨n, hn⟩ := Option.isSome_iff_exists.mp (alookup_isSome_iff.mpr h)
+  rw [hn]
+  exact ⟨_, rfl, akeys_ainsert_of_mem h⟩
+
+theorem rowDegrees_spec (init final q : σ) (K : List σ) (hq : q ≠ init → q ∈ K) :
+    ∀ (row : List (σ × Option ℓ)) (deg : List (σ × Nat)),
+      (∀ e ∈ row, e.2 ≠ none → e.1 ≠ final → e.1 ∈ K) →
+      (∀ y, y ∈ akeys deg ↔ y ∈ K) →
+      ∃ deg', rowDegrees init final q row deg = .ok deg' ∧ ∀ y, y ∈ akeys deg' ↔ y ∈ K := by
+  intro row
+  unfold rowDegrees
+  induction row with
+  | nil => intro deg _ hk; exact ⟨deg, rfl, hk⟩
+  | cons e row ih =>
+    intro deg hrow hk
+    rw [List.foldlM_cons]
+    have hrow' : ∀ e ∈ row, e.2 ≠ none → e.1 ≠ final → e.1 ∈ K :=
+      fun e he => hrow e (List.mem_cons_of_mem _ he)
+    cases he2 : e.2 with
+    | none =>
+      simp only [bind, Except.bind]
+      exact ih deg hrow' hk
+    | some l =>
+      -- first increment
+      have h1 : ∃ d1, (if q ≠ init then degInc deg q else .ok deg) = .ok d1 ∧
+          ∀ y, y ∈ akeys d1 ↔ y ∈ K := by
+        by_cases hqi : q ≠ init
+        · rw [if_pos hqi]
+          obtain ⟨d1, hd1, hk1⟩ := degInc_spec ((hk q).mpr (hq hqi))
+          exact ⟨d1, hd1, fun y => (hk1 y).trans (hk y)⟩
+        · rw [if_neg hqi]; exact ⟨deg, rfl, hk⟩
+      obtain ⟨d1, hd1, hk1⟩ := h1
+      have h2 : ∃ d2, (if e.1 ≠ final then degInc d1 e.1 else .ok d1) = .ok d2 ∧
+          ∀ y, y ∈ akeys d2 ↔ y ∈ K := by
+        by_cases hef : e.1 ≠ final
+        · rw [if_pos hef]
+          have : e.1 ∈ K := hrow e (by simp) (by simp [he2]) hef
+          obtain ⟨d2, hd2, hk2⟩ := degInc_spec ((hk1 e.1).mpr this)
+          exact ⟨d2, hd2, fun y => (hk2 y).trans (hk1 y)⟩
+        · rw [if_neg hef]; exact ⟨d1, rfl, hk1⟩
+      obtain ⟨d2, hd2, hk2⟩ := h2
+      simp only [bind, Except.bind, hd1, hd2]
+      exact ih d2 hrow' hk2
+
+theorem argminAux_mem (best : σ) (bn : Nat) (t : List (σ × Nat)) :
+    argminAux best bn t = best ∨ argminAux best bn t ∈ akeys t := by
+  induction t generalizing best bn with
+  | nil => exact Or.inl rfl
+  | cons e t ih =>
+    obtain ⟨x, n⟩ := e
+    simp only [argminAux]
+    split
+    · rcases ih x n with h | h
+      · exact Or.inr (by simp [akeys, h])
+      · exact Or.inr (by simp only [akeys, List.map_cons, List.mem_cons]; exact Or.inr h)
+    · rcases ih best bn with h | h
+      · exact Or.inl h
+      · exact Or.inr (by simp only [akeys, List.map_cons, List.mem_cons]; exact Or.inr h)
+
+theorem exists_inner {S : List σ} (hnd : S.Nodup) {init final : σ} (hlen : S.length > 2) :
+    ∃ x, x ∈ innerStates S init final := by
+  by_contra hne
+  have hsub : S ⊆ [init, final] := by
+    intro x hx
+    by_contra hx'
+    apply hne
+    refine ⟨x, ?_⟩
+    simp only [List.mem_cons, List.not_mem_nil, or_false, not_or] at hx'
+    simp [innerStates, hx, hx'.1, hx'.2]
+  have := List.Nodup.length_le_of_subset hnd hsub
+  simp at this
+  omega
+
+theorem findMin_spec {S : List σ} {init final : σ} {tr : Table σ ℓ} (hS : Shape S init final tr)
+    (hlen : S.length > 2) (ord : List σ → List σ) (hord : ∀ l x, x ∈ ord l ↔ x ∈ l) :
+    ∃ q, findMin S tr init final ord = .ok q ∧ q ∈ S ∧ q ≠ init ∧ q ≠ final := by
+  set K := ord (innerStates S init final) with hK
+  have memK : ∀ x, x ∈ K ↔ x ∈ S ∧ x ≠ init ∧ x ≠ final := by
+    intro x; rw [hK, hord]; simp [innerStates]
+  -- the outer loop keeps the key set
+  have outer : ∀ (l : List σ) (deg : List (σ × Nat)), (∀ p ∈ l, p ∈ S ∧ p ≠ final) →
+      (∀ y, y ∈ akeys deg ↔ y ∈ K) →
+      ∃ deg', l.foldlM (fun deg q =>
+          match alookup q tr with
+          | none => (.error (.py .keyError) : Res (List (σ × Nat)))
+          | some row => rowDegrees init final q row deg) deg = .ok deg' ∧
+        ∀ y, y ∈ akeys deg' ↔ y ∈ K := by
+    intro l
+    induction l with
+    | nil => intro deg _ hk; exact ⟨deg, rfl, hk⟩
+    | cons p l ih =>
+      intro deg hl hk
+      obtain ⟨hpS, hpf⟩ := hl p (by simp)
+      obtain ⟨row, hrow⟩ := Option.isSome_iff_exists.mp ((hS.rows p).mpr ⟨hpS, hpf⟩)
+      have hrowK : ∀ e ∈ row, e.2 ≠ none → e.1 ≠ final → e.1 ∈ K := by
+        intro e he _ hef
+        have : (get2 tr p e.1).isSome := by
+          unfold get2
+          rw [hrow]
+          simp only [Option.bind_some]
+          exact alookup_isSome_iff.mpr (List.mem_map.mpr ⟨e, he, rfl⟩)
+        obtain ⟨_, _, h3, h4⟩ := (hS.entries p e.1).mp this
+        exact (memK e.1).mpr ⟨h3, h4, hef⟩
+      obtain ⟨d1, hd1, hk1⟩ := rowDegrees_spec (ℓ := ℓ) init final p K
+        (fun hpi => (memK p).mpr ⟨hpS, hpi, hpf⟩) row deg hrowK hk
+      obtain ⟨d2, hd2, hk2⟩ := ih d1 (fun p' hp' => hl p' (List.mem_cons_of_mem _ hp')) hk1
+      refine ⟨d2, ?_, hk2⟩
+      rw [List.foldlM_cons]
+      simp only [hrow, bind, Except.bind, hd1]
+      exact hd2
+  obtain ⟨deg, hdeg, hk⟩ := outer (S.filter fun q => decide (q ≠ final)) (K.map fun q => (q, 0))
+    (by intro p hp; simpa using hp)
+    (by intro y; simp [akeys, List.map_map, Function.comp_def])
+  obtain ⟨x, hx⟩ := exists_inner hS.nodup (init := init) (final := final) hlen
+  have hxK : x ∈ K := by rw [hK, hord]; exact hx
+  have hxdeg : x ∈ akeys deg := (hk x).mpr hxK
+  have hdeg' : stateDegrees S tr init final K = .ok deg := hdeg
+  unfold findMin
+  simp only [← hK, bind, Except.bind, hdeg']
+  cases hd : deg with
+  | nil => rw [hd] at hxdeg; simp [akeys] at hxdeg
+  | cons e t =>
+    obtain ⟨b, n⟩ := e
+    refine ⟨argminAux b n t, rfl, ?_⟩
+    have : argminAux b n t ∈ akeys deg := by
+      rw [hd]
+      rcases argminAux_mem b n t with h | h
+      · simp [akeys, h]
+      · simp only [akeys, List.map_cons, List.mem_cons]; exact Or.inr h
+    exact (memK _).mp ((hk _).mp this)
+
+/-! ### labels as languages -/
+
+/-- An optional label denotes `L` under the label semantics `R` (`None` = the empty language). -/
+def RO (R : Language Char → ℓ → Prop) (L : Language Char) : Option ℓ → Prop
+  | none => L = 0
+  | some l => R L l
+
+/-- The label rule `comb` is sound for the semantics `R`: it computes a label for
+`L₄ + L₁ · L₂* · L₃`. -/
+def CombSound (R : Language Char → ℓ → Prop)
+    (comb : Option ℓ → Option ℓ → Option ℓ → Option ℓ → Option ℓ) : Prop :=
+  ∀ (L1 L2 L3 L4 : Language Char) (r1 r2 r3 r4 : Option ℓ),
+    RO R L1 r1 → RO R L2 r2 → RO R L3 r3 → RO R L4 r4 →
+    RO R (L4 + L1 * KStar.kstar L2 * L3) (comb r1 r2 r3 r4)
+
+/-- The table `tr` is a labelling of the language-labelled graph `Lb`. -/
+def Denotes (R : Language Char → ℓ → Prop) (tr : Table σ ℓ) (Lb : σ → σ → Language Char) : Prop :=
+  ∀ p r, RO R (Lb p r) (lab tr p r)
+
+theorem Denotes.rip {R : Language Char → ℓ → Prop}
+    {comb : Option ℓ → Option ℓ → Option ℓ → Option ℓ → Option ℓ} (hcomb : CombSound R comb)
+    {tr tr' : Table σ ℓ} {Lb : σ → σ → Language Char} (hD : Denotes R tr Lb) {q : σ}
+    (hget : ∀ p r, get2 tr' p r =
+      if p = q ∨ r = q then none
+      else (get2 tr p r).map fun _ => comb (lab tr p q) (lab tr q q) (lab tr q r) (lab tr p r))
+    (hent : ∀ p r, get2 tr p r = none → get2 tr p q = none ∨ get2 tr q r = none) :
+    Denotes R tr' (GnfaSpec.rip Lb q) := by
+  intro p r
+  unfold lab GnfaSpec.rip
+  rw [hget]
+  by_cases h : p = q ∨ r = q
+  · rw [if_pos h, if_pos h]; rfl
+  · rw [if_neg h, if_neg h]
+    cases hg : get2 tr p r with
+    | some v =>
+      simp only [Option.map_some, Option.join_some]
+      exact hcomb _ _ _ _ _ _ _ _ (hD p q) (hD q q) (hD q r) (hD p r)
+    | none =>
+      simp only [Option.map_none, Option.join_none]
+      show _ = 0
+      have h0 : Lb p r = 0 := by have := hD p r; unfold lab at this; rw [hg] at this; exact this
+      rcases hent p r hg with h1 | h1
+      · have : Lb p q = 0 := by have := hD p q; unfold lab at this; rw [h1] at this; exact this
+        simp [h0, this]
+      · have : Lb q r = 0 := by have := hD q r; unfold lab at this; rw [h1] at this; exact this
+        simp [h0, this]
+
+/-- With two states left the language of the graph is the label of its only edge. -/
+theorem GLang_two {S : List σ} {init final : σ} {tr : Table σ ℓ} (hS : Shape S init final tr)
+    (hlen : S.length = 2) {R : Language Char → ℓ → Prop} {Lb : σ → σ → Language Char}
+    (hD : Denotes R tr Lb) : GLang Lb init final = Lb init final := by
+  have hsub : ∀ x ∈ S, x = init ∨ x = final := by
+    intro x hx
+    by_contra hx'
+    simp only [not_or] at hx'
+    have hsub : [x, init, final] ⊆ S := by
+      intro y hy
+      simp only [List.mem_cons, List.not_mem_nil, or_false] at hy
+      rcases hy with rfl | rfl | rfl
+      · exact hx
+      · exact hS.init_mem
+      · exact hS.final_mem
+    have hnd : [x, init, final].Nodup := by
+      simp [hx'.1, hx'.2, hS.ne]
+    have := List.Nodup.length_le_of_subset hnd hsub
+    simp at this; omega
+  have hzero : ∀ p r, ¬ (p = init ∧ r = final) → Lb p r = 0 := by
+    intro p r hpr
+    have hn : get2 tr p r = none := by
+      have : ¬ (get2 tr p r).isSome := by
+        rw [hS.entries]
+        rintro ⟨h1, h2, h3, h4⟩
+        rcases hsub p h1 with rfl | rfl
+        · rcases hsub r h3 with rfl | rfl
+          · exact h4 rfl
+          · exact hpr ⟨rfl, rfl⟩
+        · exact h2 rfl
+      simpa using this
+    have := hD p r
+    unfold lab at this; rw [hn] at this; exact this
+  ext w
+  constructor
+  · intro hw
+    have hw : Walk Lb init final w := hw
+    cases hw with
+    | nil => exact absurd rfl hS.ne
+    | @cons _ m _ u v hu hrest =>
+      by_cases hm : m = final
+      · subst hm
+        cases hrest with
+        | nil => simpa using hu
+        | @cons _ m' _ u' v' hu' _ =>
+          rw [hzero m m' (fun h => hS.ne h.1.symm)] at hu'
+          exact absurd hu' (by simp)
+      · rw [hzero init m (fun h => hm h.2)] at hu
+        exact absurd hu (by simp)
+  · intro hw
+    exact Walk.single hw
+
+/-! ### the loop -/
+
+/-- **`to_regex` is correct for every sound label rule and every tie-break order**: on a table
+of the documented shape whose labels denote the edge languages `Lb`, the loop never raises
+and returns a label denoting the language of the GNFA (`None` iff that language is empty). -/
+theorem toRegexLoop_spec {R : Language Char → ℓ → Prop}
+    {comb : Option ℓ → Option ℓ → Option ℓ → Option ℓ → Option ℓ} (hcomb : CombSound R comb)
+    (init final : σ) (ord : Nat → List σ → List σ) (hord : ∀ k l x, x ∈ ord k l ↔ x ∈ l) :
+    ∀ (fuel k : Nat) (S : List σ) (tr : Table σ ℓ) (rips : List σ) (Lb : σ → σ → Language Char),
+      Shape S init final tr → Denotes R tr Lb → S.length = fuel + 2 →
+      ∃ rips' o, toRegexLoop comb init final ord fuel k S tr rips = .ok (rips', o) ∧
+        RO R (GLang Lb init final) o := by
+  intro fuel
+  induction fuel with
+  | zero =>
+    intro k S tr rips Lb hS hD hlen
+    obtain ⟨l, hl⟩ := Option.isSome_iff_exists.mp
+      ((hS.entries init final).mpr ⟨hS.init_mem, hS.ne, hS.final_mem, fun h => hS.ne h.symm⟩)
+    refine ⟨rips, l, ?_, ?_⟩
+    · simp only [toRegexLoop, getE_of_get2 hl, bind, Except.bind]
+    · rw [GLang_two hS (by omega) hD]
+      have := hD init final
+      unfold lab at this; rw [hl] at this; exact this
+  | succ fuel ih =>
+    intro k S tr rips Lb hS hD hlen
+    obtain ⟨q, hfind, hqS, hqi, hqf⟩ := findMin_spec hS (by omega) (ord k) (hord k)
+    obtain ⟨tr', hstep, hS', hget⟩ := ripStep_spec comb hS hqS hqi hqf
+    have hD' : Denotes R tr' (GnfaSpec.rip Lb q) := by
+      refine hD.rip hcomb hget ?_
+      intro p r hn
+      have : ¬ (get2 tr p r).isSome := by simp [hn]
+      rw [hS.entries] at this
+      by_cases hp : p ∈ S ∧ p ≠ final
+      · right
+        have : ¬ (get2 tr q r).isSome := by
+          rw [hS.entries]; rintro ⟨_, _, h3, h4⟩; exact this ⟨hp.1, hp.2, h3, h4⟩
+        simpa using this
+      · left
+        have : ¬ (get2 tr p q).isSome := by
+          rw [hS.entries]; rintro ⟨h1, h2, _, _⟩; exact hp ⟨h1, h2⟩
+        simpa using this
+    have hlen' : (S.filter fun x => decide (x ≠ q)).length = fuel + 2 := by
+      have := length_filter_ne hS.nodup hqS
+      omega
+    obtain ⟨rips', o, hloop, hRO⟩ := ih (k + 1) _ tr' (rips ++ [q]) _ hS' hD' hlen'
+    refine ⟨rips', o, ?_, ?_⟩
+    · rw [toRegexLoop, if_pos (by omega)]
+      simp only [bind, Except.bind, hfind, hstep]
+      exact hloop
+    · rw [← GLang_rip Lb (fun h => hqi h.symm) (fun h => hqf h.symm)]
+      exact hRO
+
+/-- `to_regex` of a GNFA of the documented shape. -/
+theorem toRegexG_spec {R : Language Char → ℓ → Prop}
+    {comb : Option ℓ → Option ℓ → Option ℓ → Option ℓ → Option ℓ} (hcomb : CombSound R comb)
+    (g : GNFA σ ℓ) (hS : Shape (dedup g.states) g.init g.final g.trans)
+    {Lb : σ → σ → Language Char} (hD : Denotes R g.trans Lb)
+    (ord : Nat → List σ → List σ) (hord : ∀ k l x, x ∈ ord k l ↔ x ∈ l) :
+    ∃ o, toRegexG comb g ord = .ok o ∧ RO R (GLang Lb g.init g.final) o := by
+  have hlen : (dedup g.states).length ≥ 2 := by
+    have hsub : [g.init, g.final] ⊆ dedup g.states := by
+      intro y hy
+      simp only [List.mem_cons, List.not_mem_nil, or_false] at hy
+      rcases hy with rfl | rfl
+      · exact hS.init_mem
+      · exact hS.final_mem
+    have hnd : [g.init, g.final].Nodup := by simp [hS.ne]
+    have := List.Nodup.length_le_of_subset hnd hsub
+    simpa using this
+  obtain ⟨rips', o, hloop, hRO⟩ := toRegexLoop_spec hcomb g.init g.final ord hord
+    ((dedup g.states).length - 2) 0 (dedup g.states) g.trans [] Lb hS hD (by omega)
+  refine ⟨o, ?_, hRO⟩
+  unfold toRegexG toRegexTrace
+  simp only [bind, Except.bind, hloop]
+
 end AV.GNFA
